@@ -6712,7 +6712,7 @@ EndOfInitialization_getFromBuffer(EndOfInitialization self, CS101_AppLayerParame
 static bool
 FileReady_encode(FileReady self, Frame frame, CS101_AppLayerParameters parameters, bool isSequence)
 {
-    int size = isSequence ? 1 : (parameters->sizeOfIOA + 1);
+    int size = isSequence ? 6 : (parameters->sizeOfIOA + 6);
 
     if (Frame_getSpaceLeft(frame) < size)
         return false;
@@ -6844,7 +6844,7 @@ FileReady_getFromBuffer(FileReady self, CS101_AppLayerParameters parameters,
 static bool
 SectionReady_encode(SectionReady self, Frame frame, CS101_AppLayerParameters parameters, bool isSequence)
 {
-    int size = isSequence ? 1 : (parameters->sizeOfIOA + 1);
+    int size = isSequence ? 7 : (parameters->sizeOfIOA + 7);
 
     if (Frame_getSpaceLeft(frame) < size)
         return false;
@@ -6986,7 +6986,7 @@ SectionReady_getFromBuffer(SectionReady self, CS101_AppLayerParameters parameter
 static bool
 FileCallOrSelect_encode(FileCallOrSelect self, Frame frame, CS101_AppLayerParameters parameters, bool isSequence)
 {
-    int size = isSequence ? 1 : (parameters->sizeOfIOA + 1);
+    int size = isSequence ? 4 : (parameters->sizeOfIOA + 4);
 
     if (Frame_getSpaceLeft(frame) < size)
         return false;
@@ -7098,6 +7098,11 @@ FileCallOrSelect_getFromBuffer(FileCallOrSelect self, CS101_AppLayerParameters p
 static bool
 FileLastSegmentOrSection_encode(FileLastSegmentOrSection self, Frame frame, CS101_AppLayerParameters parameters, bool isSequence)
 {
+    int size = isSequence ? 5 : (parameters->sizeOfIOA + 5);
+
+    if (Frame_getSpaceLeft(frame) < size)
+        return false;
+
     InformationObject_encodeBase((InformationObject) self, frame, parameters, isSequence);
 
     Frame_setNextByte (frame, (uint8_t)((int) self->nof % 256));
@@ -7215,6 +7220,11 @@ FileLastSegmentOrSection_getFromBuffer(FileLastSegmentOrSection self, CS101_AppL
 static bool
 FileACK_encode(FileACK self, Frame frame, CS101_AppLayerParameters parameters, bool isSequence)
 {
+    int size = isSequence ? 4 : (parameters->sizeOfIOA + 4);
+
+    if (Frame_getSpaceLeft(frame) < size)
+        return false;
+
     InformationObject_encodeBase((InformationObject) self, frame, parameters, isSequence);
 
     Frame_setNextByte (frame, (uint8_t)((int) self->nof % 256));
@@ -7323,6 +7333,11 @@ static bool
 FileSegment_encode(FileSegment self, Frame frame, CS101_AppLayerParameters parameters, bool isSequence)
 {
     if (self->los > FileSegment_GetMaxDataSize(parameters))
+        return false;
+
+    int size = isSequence ? (4 + self->los) : (parameters->sizeOfIOA + 4 + self->los);
+
+    if (Frame_getSpaceLeft(frame) < size)
         return false;
 
     InformationObject_encodeBase((InformationObject) self, frame, parameters, isSequence);
